@@ -1,5 +1,6 @@
 """World (contracts, schema, externals) and Task (verify one function against its contract, all paths)."""
 import inspect
+import os
 import time
 import traceback
 import z3
@@ -197,6 +198,7 @@ class Task:
 
     # ---- solving ------------------------------------------------------------------------------------
     def check_goal(self, c, goal):
+        c.sync()
         s = c.solver
         s.push()
         s.set("timeout", self.goal_timeout_ms)
@@ -329,6 +331,11 @@ class Task:
             try:
                 c.assume(c.heap.top > 0)
                 args = self.make_args(ip)
+                # T-schema at the entry state: the containers of every Node argument are allocated objects of the entry heap
+                for an, av in args.items():
+                    if isinstance(av, Sym) and av.ty == "Node":
+                        for fld, fty in self.world.schema.get("Node", {}).items():
+                            c.from_val(c.heap.get("F:" + fld)[av.t], fty)
                 c.heap0 = c.heap.snapshot()
                 a = spec_args(ip, args)
                 self.spec_args = a
@@ -341,7 +348,7 @@ class Task:
                     for nm, f in _clauses(con.axioms(s0, **a), "axiom"):
                         c.assume(f)
                 self.rec_measure = con.decreases(s0, **a) if con.decreases is not None else None
-                c.base_pc = list(c.pc)
+                c.base_pc = [z3.And(*c.pc)] if len(c.pc) > 1 else list(c.pc)   # one conjunction: cheap to re-assume at merge points
                 si = srcinfo(self.func)
                 self.note_function(q, si, inlined=True)
                 fr = Frame(self.func, q, dict(args), self.func.__globals__, si)
@@ -392,6 +399,9 @@ class Task:
         except RecursionError:
             c.obs.append(ObRec(f"{name}/engine-recursion", "undecided", 0.0, "engine recursion limit", path=c.path_id))
         full = "".join("T" if d else "F" for d in c.log)
+        if os.environ.get("PYVC_TRACE"):
+            bad = [o for o in c.obs if o.status != "proved"]
+            print(f"[pyvc] {self.name} path {full} obs={len(c.obs)} bad={len(bad)} t={sum(o.time for o in c.obs):.1f}s " + " ".join(o.name.split('/')[-1] + ":" + o.status for o in bad[:4]), flush=True)
         for o in c.obs:
             o.path = full
         self.res.obs.extend(c.obs)
